@@ -45,7 +45,39 @@ func mkChooser(s Sched) vrt.Chooser {
 var MaxStepsDefault = 3_000_000
 
 // RunCase executes a case on the coop runtime. It is a pure function of the case.
-func RunCase(c *Case) *Result { return runCaseWith(c, nil) }
+func RunCase(c *Case) *Result {
+	if c.Sched.Strategy == "devu" {
+		resolveDevu(c)
+	}
+	return runCaseWith(c, nil)
+}
+
+// resolveDevu turns a "devu" schedule (deviations given as permille of the choice points that remain
+// after the previous deviation) into the plain deviation list it denotes for this program, by running
+// the prefixes. The case is rewritten in place, so what is stored and replayed is the plain list.
+func resolveDevu(c *Case) {
+	var abs [][2]int
+	for _, f := range c.Sched.Devs {
+		cc := *c
+		cc.Sched = Sched{Strategy: "dev", Devs: abs}
+		r := runCaseWith(&cc, nil)
+		if r.Dev == nil {
+			break
+		}
+		rem := r.Dev.Multi
+		if len(abs) > 0 {
+			if len(r.Dev.FiredAt) < len(abs) {
+				break
+			}
+			rem = r.Dev.Multi - r.Dev.FiredAt[len(abs)-1] - 1
+		}
+		if rem <= 0 {
+			break
+		}
+		abs = append(abs, [2]int{f[0] * rem / 1000, f[1]})
+	}
+	c.Sched = Sched{Strategy: "dev", Devs: abs}
+}
 
 // runCaseWith additionally places raw items on adapter queue 0 before binding (C11 recovery).
 func runCaseWith(c *Case, preRaw []adItem) *Result {
